@@ -3,6 +3,7 @@
 Each function runs its group through lemmas_e1.run_parallel (lift once, translator validation, worker pool) and merges
 lemma entries, samples, functions, assumptions, vacuity witnesses and violations into ctx.  Memory-safety obligations
 are reported as separate entries "<lemma>.bounds" (C05)."""
+import os
 from . import lemmas_e1 as LM
 from .e1 import tv
 
@@ -50,8 +51,13 @@ def ndjson_lemmas(ctx, tier=None):
 def string_jobs(ctx, tier):
     if tier == "quick":
         s2 = [("S2", (2, (i, 16))) for i in range(16)]
-    else:
+    elif os.environ.get("VERIF_S2_ITERS_THOROUGH", "3") == "3":
+        # 3 iterations (130 symbolic bytes): 68 shards of 5-17 CPU-minutes each; measured 74 min wall for the whole of C04 on 16
+        # cores while the machine was shared (load average 30-45), estimated 25-30 min on an idle one;
+        # VERIF_S2_ITERS_THOROUGH=2 keeps the thorough tier at the quick bound (2 min)
         s2 = [("S2", (3, (i, 17, j, 4))) for i in range(17) for j in range(4)] + [("S2", (2, (i, 16))) for i in range(16)]
+    else:
+        s2 = [("S2", (2, (i, 16))) for i in range(16)]
     return s2 + [("S3", ()), ("S4", ()), ("S1", ())]
 
 
